@@ -6,6 +6,11 @@ wt=/tmp/seed/wt-$n; out=/tmp/seed/out-$n
 dst=/verif/seeded/$n
 mkdir -p $dst
 cp $out/patch.diff $out/demo.py $out/meta.json $dst/ 2>/dev/null
+# the worktree is reset and the delivered patch re-applied (git stash is shared between worktrees: never trust the tree state)
+if [ -s $out/patch.diff ]; then
+  git -C $wt checkout -- . && git -C $wt checkout -q --detach $(git -C /repo rev-parse HEAD) && git -C $wt apply $out/patch.diff || echo "PATCH DOES NOT APPLY" >> $dst/eval.txt
+  if grep -q "set_operations.pyx" $out/patch.diff; then ( cd $wt && CYTHONIZE_SETUP_PY=1 /venv/bin/python setup.py -q build_ext --inplace >/dev/null 2>&1 ); fi
+fi
 git -C $wt diff > $dst/patch.diff
 res=$dst/eval.txt
 : > $res
